@@ -94,6 +94,8 @@ func newLRU(kind, capacity int) lruAPI {
 		return hashLRU{lrucache.NewLRUCache[common.Hash, uint](uint(capacity)), capacity}
 	case 2:
 		return trieLRU{inmemory.NewTrieInMemoryCache()}
+	case 3, 4: // value cache (c35_ext3_test.go); capacity = number of entries the budget must hold
+		return newValLRU(kind, capacity)
 	}
 	return intLRU{lrucache.NewLRUCache[int, int](uint(capacity)), capacity}
 }
@@ -126,6 +128,7 @@ func sameInts(a, b []int) bool {
 // lruSequential runs ins on a fresh cache next to SeqLRU; returns false on a violation.
 func lruSequential(c *vcommon.Case, kind, capacity int, ins []lruIn, count bool) bool {
 	api := newLRU(kind, capacity)
+	defer stopLRU(api)
 	st := lruState{Cap: api.Cap()}
 	outs := make([]lruOut, 0, len(ins))
 	fail := func(class, msg string) bool {
@@ -281,6 +284,7 @@ func runLRUPlan(c *vcommon.Case, p lruPlan, timed bool) {
 // runLRUPlanOnce executes the plan once; porcupine.Unknown asks for another execution.
 func runLRUPlanOnce(c *vcommon.Case, p lruPlan, timed bool, attempt int) porcupine.CheckResult {
 	api := newLRU(p.kind, p.capacity)
+	defer stopLRU(api)
 	model := lruModel(api.Cap())
 	var clk atomic.Int64
 	pre := make([]step, len(p.prefill))
@@ -385,6 +389,10 @@ func runLRUPlanOnce(c *vcommon.Case, p lruPlan, timed bool, attempt int) porcupi
 	if !timed {
 		c.Count("race_workload_histories", 1)
 		c.Count("race_workload_ops", total)
+		if p.kind >= 3 {
+			c.Count("vc_race_workload_histories", 1)
+			c.Count("vc_race_workload_ops", total)
+		}
 	} else {
 		ov := overlapPairs(h.Ops)
 		c.Count("lin_histories", 1)
@@ -392,6 +400,12 @@ func runLRUPlanOnce(c *vcommon.Case, p lruPlan, timed bool, attempt int) porcupi
 		c.Count("lin_overlapping_pairs", ov)
 		if ov > 0 {
 			c.Count("lin_histories_with_overlap", 1)
+		}
+		if p.kind >= 3 {
+			c.Count("vc_lin_histories", 1)
+			if ov > 0 {
+				c.Count("vc_lin_histories_with_overlap", 1)
+			}
 		}
 		if res := decide(c, fmt.Sprintf("%s cap=%d", api.Name(), api.Cap()), model, append(full, pops...),
 			map[string]any{"yield_pct": p.yield, "gomaxprocs": p.procs, "capacity": api.Cap(), "keys": p.keys}, attempt); res == porcupine.Unknown {
@@ -577,6 +591,7 @@ func TestVerifC35(t *testing.T) {
 	r.Floor("conc_histories_with_eviction_pressure", 20)
 	r.Floor("race_workload_histories", 10)
 	r.Floor("structure_checked", 50)
+	c35Ext3Floors(r)
 
 	good := true
 	r.Fixed("selftest", r.Shards, func(c *vcommon.Case) { good = lruSelfTest(c) })
@@ -697,4 +712,6 @@ func TestVerifC35(t *testing.T) {
 			runLRUPlan(c, genLRUPlan(c.R, 160, false), false)
 		}
 	})
+
+	c35Ext3Groups(r)
 }
